@@ -63,11 +63,60 @@ Theorem C06_inline_dir_refuted :
   exists ctx key bs d g t,
     In (d, g) (combine (dlinks bs) (glinks (written ctx key bs))) /\
     o_kind d = KNote Regular /\ o_alt d = false /\
-    ctx (from_rel_link_url (o_dest g) (key_parent key)) = Some t /\ o_text g <> [Str t].
+    ctx (join_normalized (key_parent key) (o_dest g)) = Some t /\ o_text g <> [Str t].
 Proof. exact LinksFacts.C06_inline_dir_refuted. Qed.
 Check C06_inline_dir_refuted :
   exists ctx key bs d g t,
     In (d, g) (combine (dlinks bs) (glinks (written ctx key bs))) /\
     o_kind d = KNote Regular /\ o_alt d = false /\
-    ctx (from_rel_link_url (o_dest g) (key_parent key)) = Some t /\ o_text g <> [Str t].
+    ctx (join_normalized (key_parent key) (o_dest g)) = Some t /\ o_text g <> [Str t].
 Print Assumptions C06_inline_dir_refuted.
+
+(* what is written for a note link or a block reference resolves, from the note's directory, to the key the
+   typed url resolved to - with either extension, for every key, also one ending in `.md` (the file `x.md.md`);
+   formerly refuted for such keys (C06_block_md_refuted: finding F-C14-5 / F14-double-md seen from C06) *)
+Theorem C06_written_resolves :
+  forall (ctx : titles) (dir : string) (d g : occ) (ext : string),
+    link_rule ctx dir d g ->
+    match o_kind d with KNote _ | KBlock _ => True | _ => False end ->
+    ext = MD \/ ext = "" ->
+    from_rel_link_url (ref_url (o_dest g) ext) dir = from_rel_link_url (o_dest d) dir.
+Proof. exact LinksFacts.C06_written_resolves. Qed.
+Check C06_written_resolves :
+  forall (ctx : titles) (dir : string) (d g : occ) (ext : string),
+    link_rule ctx dir d g ->
+    match o_kind d with KNote _ | KBlock _ => True | _ => False end ->
+    ext = MD \/ ext = "" ->
+    from_rel_link_url (ref_url (o_dest g) ext) dir = from_rel_link_url (o_dest d) dir.
+Print Assumptions C06_written_resolves.
+
+(* ... and so does its re-read from the written text *)
+Theorem C06_reread_resolves :
+  forall (o : opts) (dir : string) (g r : occ),
+    reread_rule o dir g r ->
+    refs_extension o = MD \/ refs_extension o = "" -> is_ref_url (o_dest g) = true ->
+    match o_kind g with KImage => False | _ => True end ->
+    from_rel_link_url (o_dest r) dir = join_normalized dir (o_dest g).
+Proof. exact LinksFacts.C06_reread_resolves. Qed.
+Check C06_reread_resolves :
+  forall (o : opts) (dir : string) (g r : occ),
+    reread_rule o dir g r ->
+    refs_extension o = MD \/ refs_extension o = "" -> is_ref_url (o_dest g) = true ->
+    match o_kind g with KImage => False | _ => True end ->
+    from_rel_link_url (o_dest r) dir = join_normalized dir (o_dest g).
+Print Assumptions C06_reread_resolves.
+
+Theorem C06_block_md_kept :
+  exists ctx key bs d g, dlinks bs = [d] /\ glinks (written ctx key bs) = [g] /\
+    from_rel_link_url (o_dest d) (key_parent key) = "d/a.md" /\ o_dest g = "a.md" /\
+    ref_url (o_dest g) "" = "a.md.md" /\
+    from_rel_link_url (ref_url (o_dest g) "") (key_parent key) = from_rel_link_url (o_dest d) (key_parent key) /\
+    from_rel_link_url (ref_url (o_dest g) MD) (key_parent key) = from_rel_link_url (o_dest d) (key_parent key).
+Proof. exact LinksFacts.C06_block_md_kept. Qed.
+Check C06_block_md_kept :
+  exists ctx key bs d g, dlinks bs = [d] /\ glinks (written ctx key bs) = [g] /\
+    from_rel_link_url (o_dest d) (key_parent key) = "d/a.md" /\ o_dest g = "a.md" /\
+    ref_url (o_dest g) "" = "a.md.md" /\
+    from_rel_link_url (ref_url (o_dest g) "") (key_parent key) = from_rel_link_url (o_dest d) (key_parent key) /\
+    from_rel_link_url (ref_url (o_dest g) MD) (key_parent key) = from_rel_link_url (o_dest d) (key_parent key).
+Print Assumptions C06_block_md_kept.
